@@ -335,6 +335,37 @@ def vocabulary_family():
     return out
 
 
+def cse_family():
+    """Two applications of the SAME operator in one block, both results live, whose operand tuples share some
+    positions and differ in others (including: same operands in another order, same leading operands and a different
+    last one): what the common-subexpression lookup may and may not merge."""
+    W = ("in", 3)
+    leaves = [X, Y, Z, W, C(1)]
+    out = []
+    seen = set()
+
+    def emit(es, n):
+        b = compile_copy(es, n)
+        if b is None:
+            return
+        for tail in ([], [I("SWAP1")], [I("ADD")]):
+            t = tuple(b + tail)
+            if t not in seen:
+                seen.add(t)
+                out.append(b + tail)
+
+    for op in UNARY:
+        for a in leaves[:2]:
+            emit([(op, X), (op, a)], 4)
+    for op in BINARY:
+        for a, b_ in itertools.product(leaves, repeat=2):
+            emit([(op, X, Y), (op, a, b_)], 4)
+    for op in TERNARY:
+        for a, b_, c in itertools.product(leaves, repeat=3):
+            emit([(op, X, Y, Z), (op, a, b_, c)], 4)
+    return out
+
+
 ADDR9 = [C(0), C(1), C(31), C(32), C(33), X, ("ADD", C(1), X), ("ADD", C(32), X), Y]
 ADDR6 = [C(0), C(1), C(32), X, ("ADD", C(1), X), Y]
 KEYS4 = [C(0), C(1), X, Y]
